@@ -449,10 +449,7 @@ def run(tier):
             chk = confirm(ii, tier, prefix)
             rep.add([Failure(kind, {"input": inp["name"], "schedule": prefix, "deviation_at": _describe(prefix, chk[2])},
                              expected=_clip(exp), observed=_clip(got), note="observation under the default (sorted) schedule vs under this schedule")])
-    if tier == "thorough" or env.SEED % 2 == 0:
-        n_sub, sub_out = hashseed_supplement(tier)
-    else:
-        n_sub, sub_out = 0, 0
+    n_sub, sub_out = hashseed_supplement(tier)
     if sub_out > 1:
         rep.add([Failure("hashseed-supplement", {"input": ins[0]["name"]}, expected="one output for all PYTHONHASHSEED values / creation orders", observed=f"{sub_out} distinct outputs")])
     rep.coverage.update({
